@@ -54,7 +54,7 @@ def parse_json(ctx, who, argv):
     return (resp.split(" ")[0][:20],)
 
 
-def same_parse(ctx, base_argv, var_argv, what, finding=None):
+def same_parse(ctx, base_argv, var_argv, what, finding=None, must_parse=False):
     """implementation: variant parses like the canonical spelling; model agrees with the implementation"""
     ctx.case((what,) + tuple(var_argv))
     if var_argv != base_argv:
@@ -62,6 +62,11 @@ def same_parse(ctx, base_argv, var_argv, what, finding=None):
     b = parse_json(ctx, ctx.harness, base_argv)
     v = parse_json(ctx, ctx.harness, var_argv)
     case = {"canonical": base_argv, "variant": var_argv, "rendering": what, "level": "in-process Parser::parse"}
+    if b[0] != "ok" and must_parse:
+        # two spellings that are both rejected are not "the same query": where the canonical form is taken from the
+        # documentation tables it has to parse
+        ctx.oracle_fail("a documented form of a query is rejected by the parser", case, finding=finding, detail={"canonical": str(b)[:300]})
+        return False
     if b != v:
         ctx.oracle_fail("an alternative spelling parses to a different query", case, finding=finding,
                         detail={"canonical": str(b)[:300], "variant": str(v)[:300]})
@@ -94,7 +99,7 @@ def part_tables(ctx, quick):
         base = ["select name from . where %s %s %s" % (lhs, canon, rhs)]
         for alias in group:
             for v in case_variants(r, alias):
-                same_parse(ctx, base, ["select name from . where %s %s %s" % (lhs, v, rhs)], "operator:" + canon)
+                same_parse(ctx, base, ["select name from . where %s %s %s" % (lhs, v, rhs)], "operator:" + canon, must_parse=True)
         # `not like` = notlike, documented for LIKE
     same_parse(ctx, ["select name from . where name notlike '%a%'"], ["select name from . where name not like '%a%'"], "operator:not like")
     same_parse(ctx, ["select name from . where name notlike '%a%'"], ["select name from . where name NOT LIKE '%a%'"], "operator:not like")
@@ -107,7 +112,7 @@ def part_tables(ctx, quick):
         base = ["select %s from . where %s = 1 order by %s" % (group[0], group[0], group[0])]
         for alias in group:
             for v in case_variants(r, alias):
-                same_parse(ctx, base, ["select %s from . where %s = 1 order by %s" % (v, v, v)], "column:" + group[0])
+                same_parse(ctx, base, ["select %s from . where %s = 1 order by %s" % (v, v, v)], "column:" + group[0], must_parse=True)
     # a column name keeps meaning the column when an arithmetic sign follows it without a blank, in any letter case
     for group in g.get("docFieldGroups", []):
         if group[0] not in ("size", "hardlinks", "uid", "gid", "inode", "blocks"):
@@ -117,12 +122,44 @@ def part_tables(ctx, quick):
         for alias in group:
             for v in case_variants(r, alias):
                 same_parse(ctx, base, [tmpl % ((v,) * 4)], "column-before-sign:" + group[0])
+    # ... also when the name has an underscore, which some aliases of a column have and others have not (bitrate / mp3_bitrate)
+    for group in g.get("docFieldGroups", []):
+        if not any("_" in a for a in group):
+            continue
+        tmpl = "select %s+1, %s-2 from . where %s+1 gte 3 order by %s+1"
+        base = [tmpl % ((group[0],) * 4)]
+        for alias in group:
+            for v in case_variants(r, alias):
+                same_parse(ctx, base, [tmpl % ((v,) * 4)], "underscore-column-before-sign:" + group[0], must_parse=True)
+    # several GROUP BY / ORDER BY terms without a WHERE clause, the query split into shell words at every blank
+    for q in ["select name, is_dir, length(name) from . order by is_dir, length(name) desc",
+              "select name from . order by size desc, lower(name), ext",
+              "select ext, lower(name), count(*) from . group by ext, lower(name)",
+              "select ext, is_dir, count(*) from . depth 2 group by ext, is_dir order by ext, is_dir desc limit 5",
+              "select name from /tmp depth 1, /var order by length(name), name into lines"]:
+        same_parse(ctx, [q], q.split(" "), "split-several-terms-without-where", must_parse=True)
+        same_parse(ctx, [q], [q.replace(", ", " , ")], "split-several-terms-without-where", must_parse=True)
+        same_parse(ctx, [q], q.replace(", ", " , ").split(" "), "split-several-terms-without-where", must_parse=True)
+    # the root option rx / regexp in every position of the option list, also directly after the path
+    for tmpl in ["select name from '/t/[ac]' %s", "select name from '/t/[ac]' %s depth 2", "select name from '/t/[ac]' depth 2 %s",
+                 "select name from /a %s, /b dfs %s where size > 1", "select name from /a sym %s arc order by name"]:
+        base = [tmpl.replace("%s", "regexp")]
+        for alias in ("regexp", "rx"):
+            for v in case_variants(r, alias):
+                same_parse(ctx, base, [tmpl.replace("%s", v)], "root-option-position:regexp", must_parse=True)
+    # a boolean function without brackets, in every place of a condition
+    for fn in ("has_capabilities", "has_caps"):
+        for tmpl in ["select name from . where %s or size gt 4", "select name from . where size gt 4 and %s",
+                     "select name from . where not %s and size > 1", "select name from . where (%s) or name = 'x'",
+                     "select name from . where %s"]:
+            same_parse(ctx, [tmpl % "has_capabilities()"], [tmpl % fn], "boolean-function-without-brackets", must_parse=True)
+            same_parse(ctx, [tmpl % "has_capabilities()"], [tmpl % fn.upper()], "boolean-function-without-brackets", must_parse=True)
     for group in g.get("docFunctionGroups", []):
         ar = FN_ARITY.get(group[0], 1)
         base = [FN_TEMPLATES[ar] % group[0]]
         for alias in group:
             for v in case_variants(r, alias):
-                same_parse(ctx, base, [FN_TEMPLATES[ar] % v], "function:" + group[0])
+                same_parse(ctx, base, [FN_TEMPLATES[ar] % v], "function:" + group[0], must_parse=True)
         if ar == 0 and group[0] != "has_capabilities":
             same_parse(ctx, base, ["select %s from ." % group[0]], "nullary-without-brackets:" + group[0])
             same_parse(ctx, ["select name, %s() from ." % group[0]], ["select name, %s from ." % group[0].upper()], "nullary-without-brackets:" + group[0])
@@ -131,11 +168,11 @@ def part_tables(ctx, quick):
         base = ["select name from . %s%s where size > 1" % (group[0], arg)]
         for alias in group:
             for v in case_variants(r, alias):
-                same_parse(ctx, base, ["select name from . %s%s where size > 1" % (v, arg)], "root-option:" + group[0])
+                same_parse(ctx, base, ["select name from . %s%s where size > 1" % (v, arg)], "root-option:" + group[0], must_parse=True)
     for group in g.get("docFormatGroups", []):
         base = ["select name from . into %s" % group[0]]
         for v in case_variants(r, group[0]):
-            same_parse(ctx, base, ["select name from . into %s" % v], "format:" + group[0])
+            same_parse(ctx, base, ["select name from . into %s" % v], "format:" + group[0], must_parse=True)
     # round vs curly brackets, in every position a bracket can take (incl. operands that start with * / %)
     for q in ["select count(*) from .", "select name, count(*) from . group by name", "select lower(name) from .",
               "select (size + 1) * 2 from .", "select name from . where (size > 1) and (size < 100)",
@@ -227,18 +264,17 @@ def part_generated(ctx, scratch, quick):
                 in_roots = False
             words.append(w)
         # positions the lexer reads "to the end of the shell word" (D01): the word after `from`, and the word after
-        # every comma that follows FROM while no WHERE has been seen (root list, GROUP BY and ORDER BY lists)
-        seen_from = False
-        seen_where = False
+        # every comma of the root list (the commas of GROUP BY and ORDER BY lists announce no path: D81 fix)
+        in_root_list = False
         expect_path = False
         for i, w in enumerate(words):
             lw = w.lower()
             if lw == "from":
-                seen_from, expect_path = True, True
+                in_root_list, expect_path = True, True
                 continue
-            if lw == "where":
-                seen_where = True
-            if seen_from and not seen_where and w == ",":
+            if lw in ("where", "group", "order", "limit", "into"):
+                in_root_list = False
+            if in_root_list and w == ",":
                 expect_path = True
                 continue
             if expect_path:
